@@ -21,6 +21,7 @@ CONSTANTS NKeys,          \* user keys are 0..NKeys-1
           MaxMemLevel,    \* LDB_MAX_MEM_COMPACT_LEVEL (2 in lcdb)
           MaxSeq, MaxFiles, MaxSnaps,   \* model-checking bounds
           MaxNextF, TrackFiles,         \* bound on file numbers; TRUE enables pins / obsolete-file removal (C13)
+          AllowRepair,    \* TRUE adds ldb_repair: every table goes to level 0 (C19)
           UseBoundary,    \* FALSE switches add_boundary_inputs off (seeded design error, must be caught)
           DropTombstoneAlways           \* TRUE drops tombstones even when deeper levels hold the key (seeded)
 
@@ -86,6 +87,14 @@ ReadPoints == {seq} \cup snaps
 \* ================= invariants =================================================================
 \* C01 / C06: every lookup at the current sequence and at every live snapshot returns the latest write
 ReadLatest == \A k \in Keys : \A s \in ReadPoints : Same(Get(k, s), Val(k, s))
+\* C19: the known defect D1 has this shape: level-0 lookups go by file number, and after a repair the numbering need
+\* not follow data age - a higher-numbered level-0 table holds an OLDER version of the key than a lower-numbered one
+D1Shape(k) == \E f, g \in lv[0] : f.n > g.n /\ \E a \in f.e, b \in g.e : a.k = k /\ b.k = k /\ a.s < b.s
+\* every wrong point lookup has exactly that shape (in normal operation Recency excludes it, so this is ReadLatest)
+ReadLatestOrD1 == \A k \in Keys : \A s \in ReadPoints : Same(Get(k, s), Val(k, s)) \/ D1Shape(k)
+\* iterators merge all sources by sequence number, so they see the newest version whatever the layout
+AllEnts == mem \cup (IF hasImm THEN imm ELSE {}) \cup EntsOf(Files)
+IterLatest == \A k \in Keys : \A s \in ReadPoints : Same(NewestIn(AllEnts, k, s), Val(k, s))
 \* C14: above level 0 files are disjoint in internal-key order; every file is a non-empty duplicate-free run
 Disjoint == \A l \in 1..(NL - 1) : \A f, g \in lv[l] :
               f # g => (IKLess(Largest(f), Smallest(g)) \/ IKLess(Largest(g), Smallest(f)))
@@ -218,7 +227,15 @@ MCRelease(s) == s \in snaps /\ snaps' = snaps \ {s} /\ UNCHANGED <<seq, mem, imm
 MCPin == Cardinality(pins) < 1 /\ Pin /\ UNCHANGED nextf
 \* ldb_remove_obsolete_files: keep what any live version references
 MCGc == RemoveFiles(disk \ Needed) /\ disk \ Needed # {}
+\* ldb_repair + open: logs become tables, every table is placed in level 0, numbers continue above everything seen
+MCRepair == /\ AllowRepair /\ ~hasImm /\ snaps = {} /\ pins = {} /\ Files # {}
+            /\ LET memf == IF mem = {} THEN {} ELSE {[n |-> nextf, e |-> mem]} IN
+               /\ lv' = [l \in Levels |-> IF l = 0 THEN Files \cup memf ELSE {}]
+               /\ disk' = disk \cup {f.n : f \in memf}
+            /\ mem' = {} /\ nextf' = nextf + 1
+            /\ UNCHANGED <<seq, imm, hasImm, snaps, hist, pins>>
 Next == \/ \E k \in Keys, d \in BOOLEAN : MCWrite(k, d)
+        \/ MCRepair
         \/ MCSwitch \/ MCFlush
         \/ \E l \in 0..(NL - 2) : \E seed \in lv[l] : \E p \in EntsOf(Files) \cup {None} : MCCompact(l, seed, p)
         \/ \E l \in 0..(NL - 2) : \E f \in lv[l] : MCMove(l, f)
